@@ -130,6 +130,10 @@ func (p *parser) parseMessageText() (dataItem ast.ItemNode, ok bool) {
 		return ast.NewEmptyItemNode(), true
 	}
 
+	if p.pos >= len(p.input) {
+		// no format byte left
+		return ast.NewEmptyItemNode(), false
+	}
 	formatCode := p.input[p.pos] >> 2
 	lengthBytesCount := int(p.input[p.pos] & 0b00000011)
 	if lengthBytesCount == 0 {
@@ -137,6 +141,10 @@ func (p *parser) parseMessageText() (dataItem ast.ItemNode, ok bool) {
 	}
 	p.pos += 1
 
+	if lengthBytesCount > len(p.input)-p.pos {
+		// length bytes are truncated
+		return ast.NewEmptyItemNode(), false
+	}
 	lengthBytes := p.input[p.pos : p.pos+lengthBytesCount]
 	var length int
 	for i, b := range lengthBytes {
@@ -144,6 +152,18 @@ func (p *parser) parseMessageText() (dataItem ast.ItemNode, ok bool) {
 		length += int(b) << shift
 	}
 	p.pos += lengthBytesCount
+
+	// The declared length must fit into the bytes that are actually present
+	// (every list element takes at least two bytes), before it is used to
+	// size a buffer or to slice the input.
+	remaining := len(p.input) - p.pos
+	if formatCode == formatCodeList {
+		if length > remaining/2 {
+			return ast.NewEmptyItemNode(), false
+		}
+	} else if length > remaining {
+		return ast.NewEmptyItemNode(), false
+	}
 
 	switch formatCode {
 	case formatCodeList:
